@@ -778,3 +778,154 @@ Lemma leaf_ok t v s cur :
 Proof.
   destruct (is_basic_ty t) eqn:Ht; intros H Hs; [apply leaf_basic|apply leaf_packed]; assumption.
 Qed.
+
+(* ================================================================== E. the induction over the model universe *)
+Lemma mapRi_ok_inv {E X T} (g : nat -> X -> result E T) i x r ys :
+  mapRi g i (x :: r) = Ok ys -> exists y yr, g i x = Ok y /\ mapRi g (S i) r = Ok yr /\ ys = y :: yr.
+Proof.
+  cbn [mapRi]. destruct (g i x) as [y|e]; [|discriminate]. destruct (mapRi g (S i) r) as [yr|e]; [|discriminate].
+  intros H. injection H as <-. eauto.
+Qed.
+
+Section Induction.
+  Variable tgt : list str -> bool.
+
+  Definition child_ok (t : ty) : Prop :=
+    forall v comps cs,
+      dom tgt t v comps = true -> unparse_rec tgt noexc t v comps = Ok cs -> cs <> [] ->
+      puts t cs ONone = Ok (enc t v).
+
+  Lemma writes_inv t v comps cs :
+    writes tgt t v comps = true -> unparse_rec tgt noexc t v comps = Ok cs -> cs <> [].
+  Proof. unfold writes. intros H E. rewrite E in H. destruct cs; [discriminate|discriminate]. Qed.
+
+  (* leaf: the value is written into one cell *)
+  Lemma child_leaf t v comps cs :
+    is_basic_ty t || tgt comps = true ->
+    dom tgt t v comps = true -> unparse_rec tgt noexc t v comps = Ok cs ->
+    puts t cs ONone = Ok (enc t v).
+  Proof.
+    intros Hl Hd Hu. rewrite unparse_rec_unfold, Hl in Hu. apply bind_ok_inv in Hu as (s & Hs & Hu).
+    injection Hu as <-. unfold puts. cbn [foldM fst snd put].
+    rewrite (leaf_ok t v s ONone); [reflexivity| |exact Hs].
+    rewrite dom_unfold in Hd. destruct (is_basic_ty t); [exact Hd|]. cbn [orb] in Hl. rewrite Hl in Hd. exact Hd.
+  Qed.
+
+  Lemma fill_list_elems t' comps : child_ok t' -> forall l i l0 gs,
+    length l0 = i -> dom_elems tgt t' comps i l = true ->
+    mapRi (fun i e => let c := print_nat (S i) in
+                      rmap (prefix_cols c) (unparse_rec tgt noexc t' e (comps ++ [c]))) i l = Ok gs ->
+    fill (TList t') (concat gs) (OList l0) = Ok (OList (l0 ++ map (enc t') l))
+    /\ Forall paths_nonempty gs /\ (l <> [] -> concat gs <> []).
+  Proof.
+    intros IHt. induction l as [|e r IH]; intros i l0 gs Hl Hd Hg.
+    - injection Hg as <-. cbn [concat map]. rewrite app_nil_r. repeat split; [constructor|congruence].
+    - apply mapRi_ok_inv in Hg as (y & yr & Hy & Hyr & ->). cbn zeta in Hy.
+      apply rmap_ok_inv in Hy as (cs & Hcs & ->).
+      cbn [dom_elems] in Hd. cbn zeta in Hd. apply andb_true_iff in Hd as [Hd Hd3]. apply andb_true_iff in Hd as [Hw Hd2].
+      pose proof (writes_inv _ _ _ _ Hw Hcs) as Hne.
+      destruct (IH (S i) (l0 ++ [enc t' e]) yr) as (F1 & F2 & F3);
+        [rewrite app_length; cbn [length]; lia|exact Hd3|exact Hyr|].
+      cbn [concat]. split; [|split].
+      + rewrite fill_app, (fill_list_group (TList t') cs l0 i eq_refl Hl Hne). cbn [child_ty].
+        rewrite (IHt e _ cs Hd2 Hcs Hne). cbn [bind]. rewrite F1, <- app_assoc. reflexivity.
+      + constructor; [apply paths_nonempty_prefix|exact F2].
+      + intros _. destruct cs as [|c0 cr]; [congruence|]. discriminate.
+  Qed.
+
+  Lemma fill_ulist_elems comps : forall l i l0 gs,
+    length l0 = i ->
+    forallb (fun e => match e with VStr s => trimmedb s | _ => false end) l = true ->
+    mapRi (fun i e => let c := print_nat (S i) in
+                      rmap (prefix_cols c) (unparse_u tgt noexc e (comps ++ [c]))) i l = Ok gs ->
+    fill TUList (concat gs) (OList l0) = Ok (OList (l0 ++ map enc_u l))
+    /\ Forall paths_nonempty gs /\ (l <> [] -> concat gs <> []).
+  Proof.
+    induction l as [|e r IH]; intros i l0 gs Hl Hd Hg.
+    - injection Hg as <-. cbn [concat map]. rewrite app_nil_r. repeat split; [constructor|congruence].
+    - apply mapRi_ok_inv in Hg as (y & yr & Hy & Hyr & ->). cbn zeta in Hy.
+      cbn [forallb] in Hd. apply andb_true_iff in Hd as [Hs Hd3].
+      destruct e as [s| | | | |]; try discriminate.
+      cbn [unparse_u noexc rmap] in Hy. injection Hy as <-.
+      destruct (IH (S i) (l0 ++ [OStr s]) yr) as (F1 & F2 & F3);
+        [rewrite app_length; cbn [length]; lia|exact Hd3|exact Hyr|].
+      cbn [concat]. split; [|split].
+      + change [([print_nat (S i)], s)] with (prefix_cols (print_nat (S i)) [([], s)]).
+        rewrite fill_app, (fill_list_group TUList [([], s)] l0 i eq_refl Hl ltac:(discriminate)). cbn [child_ty].
+        unfold puts. cbn [foldM fst snd put]. unfold leaf_assign, leaf_value. cbn [is_list_ty is_model_ty orb assign_value bind].
+        rewrite (trimmedb_strip s Hs). rewrite F1, <- app_assoc. reflexivity.
+      + constructor; [apply (paths_nonempty_prefix (print_nat (S i)) [([], s)])|exact F2].
+      + intros _. discriminate.
+  Qed.
+
+  Lemma fill_model_fields fields h2f f2h comps :
+    NoDup (map f_name fields) -> forall fds,
+    Forall (fun f => child_ok (f_ty f)) fds -> forall fs d0 gs,
+    (forall f, In f fds -> In f fields) ->
+    NoDup (map f_name fds) ->
+    (forall f, In f fds -> dget d0 (f_name f) = None) ->
+    dom_fields tgt h2f f2h comps fds fs = true ->
+    unparse_fields tgt f2h comps fds fs = Ok gs ->
+    fill (TModel fields h2f f2h) (concat gs) (ODict d0) = Ok (ODict (d0 ++ enc_fields fds fs))
+    /\ Forall paths_nonempty gs.
+  Proof.
+    intros Hnd. induction 1 as [|[n [tf d]] r IHf _ IH]; intros [|[n' v'] fs'] d0 gs Hsub Hnd2 Hfresh Hd Hu;
+      cbn [dom_fields unparse_fields] in *; try discriminate.
+    - injection Hu as <-. cbn [concat enc_fields]. rewrite app_nil_r. split; [reflexivity|constructor].
+    - apply andb_true_iff in Hd as [Hd Hd3]. apply andb_true_iff in Hd as [Hn Hd2].
+      rewrite Hn in Hu. cbn [negb] in Hu. cbn [map f_name fst] in Hnd2. inversion Hnd2 as [|? ? Hnot Hnd3]; subst.
+      assert (Hsub' : forall f, In f r -> In f fields) by (intros f Hf; apply Hsub; right; exact Hf).
+      cbn [enc_fields]. destruct (is_default d v') eqn:Ed.
+      + apply (IH fs' d0 gs Hsub' Hnd3); [intros f Hf; apply Hfresh; right; exact Hf|exact Hd3|exact Hu].
+      + cbn zeta in Hd2, Hu. set (h := remap_get f2h n) in *.
+        apply andb_true_iff in Hd2 as [Hd2 Hc]. apply andb_true_iff in Hd2 as [Hh Hk]. apply str_eqb_eq in Hk.
+        apply bind_ok_inv in Hu as (here & Hhere & Hu). apply bind_ok_inv in Hu as (rr & Hr & Hu). injection Hu as <-.
+        assert (Hin : In (n, (tf, d)) fields) by (apply Hsub; left; reflexivity).
+        assert (Hlk : field_lookup (fun tf0 _ => tf0) fields (remap_get h2f h) = Some tf)
+          by (rewrite Hk; apply (field_lookup_in (fun tf0 _ => tf0) fields n tf d Hnd Hin)).
+        assert (Hfn : dget d0 n = None) by (apply (Hfresh (n, (tf, d))); left; reflexivity).
+        (* the columns of this field, whichever way they were written *)
+        assert (Hgrp : exists cs, here = prefix_cols h cs /\ cs <> [] /\ puts tf cs ONone = Ok (enc tf v')).
+        { cbn [f_ty fst snd] in IHf. destruct (str_eqb n h) eqn:Enh.
+          - apply andb_true_iff in Hc as [Hw Hdm]. apply rmap_ok_inv in Hhere as (cs & Hcs & ->).
+            exists cs. pose proof (writes_inv _ _ _ _ Hw Hcs) as Hne.
+            repeat split; [exact Hne|apply (IHf v' _ cs Hdm Hcs Hne)].
+          - cbn [noexc] in Hhere. apply bind_ok_inv in Hhere as (s & Hs & Hhere). injection Hhere as <-.
+            exists [([], s)]. repeat split; [discriminate|].
+            unfold puts. cbn [foldM fst snd put]. rewrite (leaf_ok tf v' s ONone Hc Hs). reflexivity. }
+        destruct Hgrp as (cs & -> & Hne & Hputs).
+        destruct (IH fs' (d0 ++ [(n, enc tf v')]) rr Hsub' Hnd3) as (F1 & F2); [|exact Hd3|exact Hr|].
+        { intros f Hf. rewrite dget_app_none by (apply Hfresh; right; exact Hf).
+          unfold dget. cbn [oget]. destruct (str_eqb n (f_name f)) eqn:E; [|reflexivity].
+          apply str_eqb_eq in E. exfalso. apply Hnot. rewrite E. apply in_map. exact Hf. }
+        cbn [concat]. split; [|constructor; [apply paths_nonempty_prefix|exact F2]].
+        rewrite fill_app, (fill_model_group fields h2f f2h h tf cs d0 Hlk Hne).
+        rewrite Hk, Hfn, Hputs. cbn [bind]. rewrite (dset_absent d0 n _ Hfn), F1, <- app_assoc. reflexivity.
+  Qed.
+
+  Theorem puts_enc : forall t, child_ok t.
+  Proof.
+    induction t as [| | | | |t' IH|fields h2f f2h IH] using ty_ind'; intros v comps cs Hd Hu Hne;
+      try (apply (child_leaf _ v comps cs); [reflexivity|exact Hd|exact Hu]).
+    - (* bare list *)
+      destruct (tgt comps) eqn:Et; [apply (child_leaf _ v comps cs); [cbn; rewrite Et; reflexivity|exact Hd|exact Hu]|].
+      rewrite unparse_rec_unfold in Hu. rewrite dom_unfold in Hd. cbn [is_basic_ty orb] in Hu, Hd. rewrite Et in Hu, Hd.
+      destruct v as [| | | |l|]; try discriminate. apply rmap_ok_inv in Hu as (gs & Hgs & ->).
+      destruct (fill_ulist_elems comps l O [] gs eq_refl Hd Hgs) as (F1 & F2 & F3).
+      rewrite puts_fresh_list; [exact F1|reflexivity|apply paths_nonempty_concat, F2|exact Hne].
+    - (* typed list *)
+      destruct (tgt comps) eqn:Et; [apply (child_leaf _ v comps cs); [cbn; rewrite Et; reflexivity|exact Hd|exact Hu]|].
+      rewrite unparse_rec_unfold in Hu. rewrite dom_unfold in Hd. cbn [is_basic_ty orb] in Hu, Hd. rewrite Et in Hu, Hd.
+      destruct v as [| | | |l|]; try discriminate. apply rmap_ok_inv in Hu as (gs & Hgs & ->).
+      destruct (fill_list_elems t' comps IH l O [] gs eq_refl Hd Hgs) as (F1 & F2 & F3).
+      rewrite puts_fresh_list; [exact F1|reflexivity|apply paths_nonempty_concat, F2|exact Hne].
+    - (* model *)
+      destruct (tgt comps) eqn:Et; [apply (child_leaf _ v comps cs); [cbn; rewrite Et; reflexivity|exact Hd|exact Hu]|].
+      rewrite unparse_rec_unfold in Hu. rewrite dom_unfold in Hd. cbn [is_basic_ty orb] in Hu, Hd. rewrite Et in Hu, Hd.
+      destruct v as [| | | | |fs]; try discriminate. apply rmap_ok_inv in Hu as (gs & Hgs & ->).
+      apply andb_true_iff in Hd as [Hnd Hd]. apply nodup_str_NoDup in Hnd.
+      destruct (fill_model_fields fields h2f f2h comps Hnd fields IH fs [] gs (fun f H => H) Hnd (fun f _ => eq_refl) Hd Hgs)
+        as (F1 & F2).
+      rewrite puts_fresh_model; [rewrite enc_model; exact F1|reflexivity|apply paths_nonempty_concat, F2|exact Hne].
+  Qed.
+End Induction.
